@@ -263,7 +263,7 @@ func (p Profile) genStep(t *rapid.T, conns int, table []Op) Step {
 	case OpText:
 		st.Name = pick(t, "text", []string{"", "hello", "{\"type\":3}", "\x08\x03"})
 	case OpBadTyped:
-		st.Count = uint32(uni(t, "bad_kind", 4))
+		st.Count = uint32(uni(t, "bad_kind", 13))
 	case OpBurstBad:
 		st.Count = uint32(pick(t, "burst_k", []int{1, 2, 7, 8, 9, 10, 16, 33, 64}))
 		st.Flag = int32(uni(t, "burst_kind", 4))
